@@ -100,7 +100,7 @@ fn shape(n: usize, r: u64) -> (usize, usize) {
 
 fn run_xyb(ctx: &Ctx, roundtrip: bool) {
     let prop = if roundtrip { "C05" } else { "C04" };
-    let total: u64 = ctx.arg_u64("pixels").unwrap_or(if ctx.flag("lite") { 1 << 21 } else { ctx.pick(1 << 24, 1 << 30) });
+    let total: u64 = ctx.arg_u64("pixels").unwrap_or(if ctx.flag("lite") { 1 << 21 } else { ctx.pick(1 << 24, 1 << 32) });
     let distinct = Distinct::new(ctx.pick(29, 33));
     let worst = Mutex::new(Worst::<([f32; 3], usize, f32, f64)>::new());
     let per_stratum: Vec<AtomicU64> = (0..8).map(|_| AtomicU64::new(0)).collect();
@@ -233,11 +233,17 @@ pub fn budget_codes(n: u8) -> f64 {
     (0.015 * ((1u64 << n) - 1) as f64).max(1.0)
 }
 
-fn c09_colors(rng: &mut Rng, count: usize) -> Vec<[f32; 3]> {
-    let mut px = Vec::with_capacity(count + 41);
+fn c09_colors(rng: &mut Rng, count: usize, n: u8) -> Vec<[f32; 3]> {
+    let mut px = Vec::with_capacity(count + 80);
     for i in 0..=32 {
         let g = i as f32 / 32.0;
         px.push([g, g, g]);
+    }
+    // dark greys: the first codes of this depth and the first 8-bit steps (where steep curves meet "black" shortcuts)
+    let maxv = ((1u32 << n) - 1) as f32;
+    for k in 1..=16 {
+        px.push([k as f32 / maxv; 3]);
+        px.push([k as f32 / 255.0; 3]);
     }
     for c in 0..8 {
         px.push([(c & 1) as f32, ((c >> 1) & 1) as f32, ((c >> 2) & 1) as f32]);
@@ -270,7 +276,7 @@ fn c09_one<T: Pixel>(cfg: YuvConfig, colors: &[[f32; 3]], worst: &mut Worst<C9At
     let bw = 1usize << ssx;
     let bh = 1usize << ssy;
     let cols = 13usize; // blocks per row (odd)
-    let rows = (colors.len() + cols - 1) / cols;
+    let rows = ((colors.len() + cols - 1) / cols) | 1; // odd too: a 4:4:4 image then has an odd number of pixels
     let (w, h) = (cols * bw, rows * bh);
     let mut px = vec![[0f32; 3]; w * h];
     for y in 0..h {
@@ -396,7 +402,7 @@ pub fn c09(ctx: &Ctx) {
         for ci in a..b {
             let (m, t, p, full, n) = cfgs[ci as usize];
             let mut rng = Rng::new(ctx.seed, 0x0C09_0000 + ci);
-            let colors = c09_colors(&mut rng, ncol);
+            let colors = c09_colors(&mut rng, ncol, n);
             for c in &colors {
                 distinct.insert(hash_mix(ci, hash_px(*c)));
             }
